@@ -21,6 +21,20 @@ compares every answer with an independent reference ledger written here:
   value per level equal to the reported metric (min convention, map_reward="minus_x"), levels exactly those of the
   data policy, pending entries exactly the not-yet-observed levels of the current job of RUNNING trials.
 
+Scenario families (all deterministic for a given seed; PASHA's per-epoch trial sets are replaced by insertion-ordered
+sets because the library iterates over sets of strings, whose order changes with PYTHONHASHSEED):
+  enum3/enum4     every 3-tuple (quick: + 50 of the 4-tuples; thorough: all) over {-1,-.25,0,.5,1} as metric pattern,
+                  3-4 workers, wave schedule (all workers ask, then the trials run to their rung level one by one)
+  random          random interleavings of suggest / report / failure / self-completion, random searcher
+  gp              the same with searcher="bayesopt" x searcher_data x register_pending_myopic x brackets 1..3
+  pasha_directed  metric tables built so that the soft ranking changes although the first displaced position is still
+                  inside the epsilon band (epsilon > 0 from two curves that cross and cross back); twin run
+  pasha_curves    noisy crossing learning curves; twin run (mode=min on f / mode=max on -f)
+  pasha_brackets  PASHA with 2-3 brackets, judged by two clauses of its own
+Four clauses are kept separate because the unchanged tree violates them (see KNOWN_OPEN): off-rung level added to
+the "rungs" data when a trial ends on its own; "rungs_and_last" drops rung levels below the first milestone of a
+bracket >= 1 trial; PASHA with several brackets (IndexError / first milestone above the cap).
+
 Bounded stand-in, never counted as proved.
 """
 import sys
@@ -548,7 +562,7 @@ class Sim:
         l = t["next"]
         v = self.value(tid, l)
         res = {METRIC: v, RESOURCE: l}
-        if self.cost or self.spec.get("with_cost"):
+        if self.cost:
             res[COST] = self.cost_sum(tid, t["start"], l)
         res1 = dict(res)
         dec = self.call(self.sched.on_trial_result, t["trial"], res1)
